@@ -82,6 +82,21 @@ def rule_points_bbox(ctx, rid):
         empties = [bi for bi, t in b.calls() if re.search(r"BoundBox::empty$", callee_name(t) or "")]
         why = []
         loops = od.loop_iterations_all_call(b, unions, why)
+        if not loops:
+            # the loop written as an adapter: `self.iter().fold(BoundBox::empty(), |bb, p| bb.union(&p.bbox()))`
+            isu = lambda t: bool(re.search(r"BoundBoxTrait>::union$|::union$", callee_name(t) or ""))
+            loops = [(d, ok_) for d, ok_ in od.every_item_handled(F, f, isu, why) if str(d).startswith("closure")]
+            if loops:
+                # the accumulator's initial value is the fold's second argument
+                folds = [bi for cf, bi, an in od.closure_loops(F, f) if re.search(r"Iterator>?::(fold|try_fold)$", an)]
+                init_ok = bool(folds) and all(len(b.term(x)["args"]) > 1 and b.def_call(b.term(x)["args"][1]) is not None and re.search(r"BoundBox::empty$", callee_name(b.def_call(b.term(x)["args"][1])) or "") for x in folds)
+                if not all(o for h, o in loops):
+                    ctx.violation(rid, "Vec<Point>::bbox", "%s: %s" % (f.short, "; ".join(why)), "%s:%d" % (f.sp[0], f.sp[1]))
+                elif not init_ok:
+                    ctx.violation(rid, "Vec<Point>::bbox", "%s does not start from the empty box" % f.short, "%s:%d" % (f.sp[0], f.sp[1]))
+                else:
+                    ctx.ok(rid, "Vec<Point>::bbox", "fold from the empty box, union with every point")
+                continue
         key = "Vec<Point>::bbox"
         if not unions or not loops:
             ctx.violation(rid, key, "%s does not union its points in a loop" % f.short, "%s:%d" % (f.sp[0], f.sp[1]))
